@@ -173,6 +173,9 @@ func runC05(x *mc.X) {
 	w, _, cleanup := c09WorldL(backend, logger)
 	defer cleanup()
 
+	if (shape.name == "multi-valued" || shape.name == "etag+lm") && framing == "content-length" && x.Choose("after-an-unrelated-exchange", 2) == 1 {
+		primeUnrelated(x, w)
+	}
 	var originHdr http.Header
 	var originBody []byte
 	originTrailer := false
